@@ -3586,22 +3586,25 @@ bn_mod_sqrt(bn_p bn, bn_p m, bn_mod_rd_data_p mod_rd_data) {
 		BN_RET_ON_ERR(bn_mod_mult(bn, &tm2, m, mod_rd_data));
 	} else if (1 == (m->num[0] & 3)) { /* Is m mod 4 == 1? - Tonelli–Shanks algorithm. */
 		bn_t b, t, bn_inv;
+		int lg;
 
 		bits = (BN_DIGIT_BITS + (MAX(bn->digits, m->digits) * 2 * BN_DIGIT_BITS));
 		BN_RET_ON_ERR(bn_init(&tm, bits));
 		BN_RET_ON_ERR(bn_init(&b, bits));
 		BN_RET_ON_ERR(bn_init(&t, bits));
-		/* Select b random quadratic nonresidue. */
-		/* Initialize random algorithm. */
-		BN_RET_ON_ERR(bn_assign(&b, bn));
-		BN_RET_ON_ERR(bn_assign(&tm, m));
-		bits = bn_calc_bits(&b);
-		do {
-			bn_r_shift(&tm, 1);
-			BN_RET_ON_ERR(bn_xor(&b, &tm));
-		} while (-1 != bn_mod_legendre(&b, m, mod_rd_data) && 0 != --bits);
-		if (0 == bits)
-			return (-1);
+		/* Select b quadratic nonresidue: smallest one, half of all
+		 * residues mod prime m are nonresidues, so this ends. */
+		BN_RET_ON_ERR(bn_assign_digit(&b, 2));
+		for (;;) {
+			lg = bn_mod_legendre(&b, m, mod_rd_data);
+			if (-1 == lg)
+				break;
+			if (0 != lg && 1 != lg) /* Error. */
+				return (lg);
+			bn_add_digit(&b, 1, NULL);
+			if (bn_cmp(&b, m) >= 0) /* m is not prime. */
+				return (-1);
+		}
 		/* Find bits and t, such as (m - 1) = 2^bits*t, where t is odd */
 		BN_RET_ON_ERR(bn_assign_init(&tm2, m));
 		bn_sub_digit(&tm2, 1, NULL); /* tm2 = (m - 1) */
